@@ -79,10 +79,11 @@ type st struct {
 }
 
 type enum struct {
-	n      int
-	budget int
-	out    []Path
-	err    error
+	n       int
+	budget  int
+	out     []Path
+	err     error
+	allowed []ByteSet // optional: bytes each position can take at all (nil = anything)
 }
 
 func classSet(re *syntax.Regexp) (ByteSet, error) {
@@ -131,6 +132,12 @@ func (e *enum) fail(err error) {
 func (e *enum) consume(set ByteSet, pos int, s st, k func(int, st)) {
 	if pos >= e.n || set.Empty() {
 		return
+	}
+	if e.allowed != nil {
+		set = set.And(e.allowed[pos])
+		if set.Empty() {
+			return
+		}
 	}
 	ns := st{caps: s.caps, reqs: append(append([]Req(nil), s.reqs...), Req{pos, set})}
 	k(pos+1, ns)
@@ -263,11 +270,16 @@ func (e *enum) m(re *syntax.Regexp, pos int, s st, k func(int, st)) {
 }
 
 // Paths enumerates all match paths for inputs of length n in leftmost-first priority order.
-func (m *Model) Paths(n, budget int) ([]Path, error) {
-	if p, ok := m.cache[n]; ok {
-		return p, nil
+func (m *Model) Paths(n, budget int) ([]Path, error) { return m.PathsAllowed(n, budget, nil) }
+
+// PathsAllowed is Paths restricted to inputs whose byte at position i lies in allowed[i].
+func (m *Model) PathsAllowed(n, budget int, allowed []ByteSet) ([]Path, error) {
+	if allowed == nil {
+		if p, ok := m.cache[n]; ok {
+			return p, nil
+		}
 	}
-	e := &enum{n: n, budget: budget}
+	e := &enum{n: n, budget: budget, allowed: allowed}
 	for start := 0; start <= n; start++ {
 		caps := make([]int, 2*(m.NumCap+1))
 		for i := range caps {
@@ -289,10 +301,12 @@ func (m *Model) Paths(n, budget int) ([]Path, error) {
 			return nil, e.err
 		}
 	}
-	if m.cache == nil {
-		m.cache = map[int][]Path{}
+	if allowed == nil {
+		if m.cache == nil {
+			m.cache = map[int][]Path{}
+		}
+		m.cache[n] = e.out
 	}
-	m.cache[n] = e.out
 	return e.out, nil
 }
 
